@@ -175,6 +175,7 @@ static void run_op(std::string const& line)
     else if (op == "release") { if (oksl(A(0)) && exps[A(0)]) exps[A(0)].reset(); else skip = true; }
     else if (op == "query") { if (oksl(A(0)) && exps[A(0)]) { q1 = exps[A(0)]->is_satisfied(); q2 = exps[A(0)]->is_saturated(); } else skip = true; }
     else if (op == "mquery") { if (okk(A(0)) && mons[A(0)]) { q1 = mons[A(0)]->is_satisfied(); q2 = mons[A(0)]->is_saturated(); } else skip = true; }
+    else if (op == "mqueryx") { if (okk(A(0)) && mons[A(0)]) { (void)mons[A(0)]->is_satisfied(); (void)mons[A(0)]->is_saturated(); } else skip = true; }
     else if (op == "iscompleted") { if (okq(A(0)) && seqs[A(0)]) q1 = seqs[A(0)]->is_completed(); else skip = true; }
     else if (op == "dmock") { if (okm(A(0)) && mocks[A(0)]) mocks[A(0)].reset(); else skip = true; }
     else if (op == "watch") {
